@@ -110,7 +110,7 @@ HeightOf(t) ==
   IN (CHOOSE k \in 1..Len(versions[v]) : versions[v][k] = t) - 1
 
 NoRv    == [on |-> FALSE, lv |-> 0, st |-> "iter", v0 |-> 0, rid |-> 0, cont |-> FALSE, why |-> "none", tag |-> 0, how |-> "none"]
-NoSp    == [on |-> FALSE, acked |-> FALSE, tag |-> 0, h |-> 0, rid |-> 0, hs |-> -1]
+NoSp    == [on |-> FALSE, acked |-> FALSE, tag |-> 0, h |-> 0, rid |-> 0, hs |-> -1, ck |-> FALSE]
 NoReorg == [on |-> FALSE, s |-> 0, e |-> 0]
 IdlePoll == [st |-> "idle", v0 |-> 0, rid |-> 0, got |-> -1]
 NewTask(h) == [h |-> h, st |-> "run", v0 |-> 0, rid |-> 0, L |-> 0, kind |-> "none", blk |-> 0, bh |-> 0,
@@ -305,26 +305,34 @@ VerifyFail ==                         \* sanity check failed: resetStreams()
   /\ vq' = Tail(vq) /\ cancelled' = TRUE
   /\ UNCHANGED <<srcVars, lifeVars, faults, local, nextFetch, weff, fq, rv, sp, modeVars, curr, revSince, seenVers>>
 
+\* storeTask looks at the context first and calls Store afterwards; a stop of the node may fall in between
+\* (a stream reset cannot: resets come from this very goroutine).  Fine = TRUE keeps the two apart.
+StoreCheck ==                         \* storeTask: ctx not done
+  /\ Fine /\ CallbackReady /\ vq[1].kind = "block" /\ ~vq[1].bad /\ ~cancelled /\ ~sp.ck
+  /\ sp' = [sp EXCEPT !.ck = TRUE]
+  /\ UNCHANGED <<srcVars, lifeVars, faults, local, cancelled, nextFetch, weff, fq, vq, rv, modeVars, curr, revSince, seenVers>>
+PassedCtxCheck == IF Fine THEN sp.ck ELSE ~cancelled
+
 StoreSkip ==                          \* storeTask sees ctx.Done
-  /\ CallbackReady /\ vq[1].kind = "block" /\ ~vq[1].bad /\ cancelled
+  /\ CallbackReady /\ vq[1].kind = "block" /\ ~vq[1].bad /\ cancelled /\ ~sp.ck
   /\ vq' = Tail(vq)
   /\ UNCHANGED <<srcVars, lifeVars, faults, local, cancelled, nextFetch, weff, fq, rv, sp, modeVars, curr, revSince, seenVers>>
 
 StoreErr ==                           \* any error but ErrParentDoesNotMatchHead: "expected block #n" (a block of
                                       \* another height), or the state root a forged successor's diff produces
-  /\ CallbackReady /\ vq[1].kind = "block" /\ ~vq[1].bad /\ ~cancelled
+  /\ CallbackReady /\ vq[1].kind = "block" /\ ~vq[1].bad /\ PassedCtxCheck
   /\ \/ vq[1].h # Len(local)
      \/ (vq[1].forged /\ ParentOf(vq[1].blk) = HeadTag(local))
-  /\ vq' = Tail(vq) /\ cancelled' = TRUE
-  /\ UNCHANGED <<srcVars, lifeVars, faults, local, nextFetch, weff, fq, rv, sp, modeVars, curr, revSince, seenVers>>
+  /\ vq' = Tail(vq) /\ cancelled' = TRUE /\ sp' = NoSp
+  /\ UNCHANGED <<srcVars, lifeVars, faults, local, nextFetch, weff, fq, rv, modeVars, curr, revSince, seenVers>>
 
 StoreMismatch ==                      \* ErrParentDoesNotMatchHead -> revertTask(n-2)  [H13]
-  /\ CallbackReady /\ vq[1].kind = "block" /\ ~vq[1].bad /\ ~cancelled
+  /\ CallbackReady /\ vq[1].kind = "block" /\ ~vq[1].bad /\ PassedCtxCheck
   /\ vq[1].h = Len(local) /\ ParentOf(vq[1].blk) # HeadTag(local)
-  /\ vq' = Tail(vq)
+  /\ vq' = Tail(vq) /\ sp' = NoSp
   /\ LET n == vq[1].h IN
      StartRevert(IF FixH13 THEN n - 1 ELSE (IF n >= 2 THEN n - 2 ELSE INF), "parent")
-  /\ UNCHANGED <<srcVars, lifeVars, faults, local, cancelled, nextFetch, weff, fq, sp, modeVars, curr, revSince, seenVers>>
+  /\ UNCHANGED <<srcVars, lifeVars, faults, local, cancelled, nextFetch, weff, fq, modeVars, curr, revSince, seenVers>>
 
 \* what storeTask does after the listener: catch-up mode switch (resets the streams), highest block,
 \* reorg notification (currReorg is cleared) and newHeads notification.  hs is the value of
@@ -339,12 +347,12 @@ PostOps(n, hs) ==
   /\ curr' = NoReorg /\ revSince' = <<>>
 
 StoreApply ==                         \* Blockchain.Store returned nil: the chain has a new head
-  /\ CallbackReady /\ vq[1].kind = "block" /\ ~vq[1].bad /\ ~vq[1].forged /\ ~cancelled
+  /\ CallbackReady /\ vq[1].kind = "block" /\ ~vq[1].bad /\ ~vq[1].forged /\ PassedCtxCheck
   /\ vq[1].h = Len(local) /\ ParentOf(vq[1].blk) = HeadTag(local)
   /\ vq' = Tail(vq)
   /\ local' = Append(local, vq[1].blk)
   /\ IF Fine
-     THEN /\ sp' = [on |-> TRUE, acked |-> FALSE, tag |-> vq[1].blk, h |-> vq[1].h, rid |-> vq[1].rid, hs |-> -1]
+     THEN /\ sp' = [on |-> TRUE, acked |-> FALSE, tag |-> vq[1].blk, h |-> vq[1].h, rid |-> vq[1].rid, hs |-> -1, ck |-> FALSE]
           /\ UNCHANGED <<cancelled, catchUp, highest, curr, revSince>>
      ELSE PostOps(vq[1].h, highest) /\ UNCHANGED sp
   /\ UNCHANGED <<srcVars, lifeVars, faults, nextFetch, weff, fq, rv, poll, polls, seenVers>>
@@ -444,7 +452,8 @@ Restart ==
   /\ UNCHANGED <<srcVars, lifeVars, faults, local, fq, vq, rv, sp, modeVars, curr, revSince, seenVers>>
 
 PollCall(rid) ==                      \* observable: request BlockHeaderLatest (pollLatest)
-  /\ poll.st = "idle" /\ polls < MaxPolls /\ ~stopping
+  /\ poll.st = "idle" /\ polls < MaxPolls
+  /\ (~stopping \/ polls = 0)        \* the first call is made without looking at the context
   /\ poll' = [poll EXCEPT !.st = "wait", !.v0 = Len(versions), !.rid = rid]
   /\ UNCHANGED <<srcVars, lifeVars, faults, local, pipeVars, highest, catchUp, polls, curr, revSince, seenVers>>
 
@@ -507,7 +516,7 @@ NodeInternal ==
   \/ FetchCallback
   \/ \E i \in 1..Len(vq) : VerifyDone(i)
   \/ VerifyFail \/ StoreSkip \/ StoreErr \/ StoreMismatch \/ RevertStart
-  \/ StoreApply \/ StorePost
+  \/ StoreCheck \/ StoreApply \/ StorePost
   \/ RevertBreak \/ RevertUncond \/ RevertDo \/ RevertEnd
   \/ Restart
   \/ PollApply
@@ -545,7 +554,7 @@ IsRevertStep == Len(local') = Len(local) - 1
 StoreSafe ==
   [][IsStoreStep =>
        /\ Prefix(local', Len(local)) = local
-       /\ CallbackReady /\ vq[1].kind = "block" /\ ~vq[1].bad /\ ~vq[1].forged /\ ~cancelled
+       /\ CallbackReady /\ vq[1].kind = "block" /\ ~vq[1].bad /\ ~vq[1].forged /\ PassedCtxCheck
        /\ vq[1].blk = HeadTag(local')
        /\ ParentOf(HeadTag(local')) = HeadTag(local)]_vars
 
@@ -581,7 +590,7 @@ VSlots == 1..(WV + 2)
 Fairness ==
   /\ WF_vars(Spawn) /\ WF_vars(FetchCallback)
   /\ WF_vars(VerifyFail) /\ WF_vars(StoreSkip) /\ WF_vars(StoreErr) /\ WF_vars(StoreMismatch)
-  /\ WF_vars(StoreApply) /\ WF_vars(StoreAck) /\ WF_vars(StorePost) /\ WF_vars(RevertStart)
+  /\ WF_vars(StoreCheck) /\ WF_vars(StoreApply) /\ WF_vars(StoreAck) /\ WF_vars(StorePost) /\ WF_vars(RevertStart)
   /\ WF_vars(RevertBreak) /\ WF_vars(RevertUncond) /\ WF_vars(RevertCall(0)) /\ WF_vars(RevertDo)
   /\ WF_vars(RevertAck) /\ WF_vars(RevertEnd) /\ WF_vars(PollApply)
   /\ WF_vars(RevertReturnAny)
